@@ -117,6 +117,38 @@ class Eval:
                 return None
             q = -(-a // c)
             return q if short == "div_ceil" else q * c
+        if short in ("and_then", "map") and len(args) == 2:
+            # Option/Result combinator with a closure: bind the closure's parameter to the value at hand and fold its body
+            v = self.val(args[0], depth)
+            cd = self.b.def_rv(args[1])
+            if v is None or not (cd and cd[2] == "rv" and cd[3]["k"] == "agg" and cd[3]["kind"].get("a") == "closure"):
+                return None
+            cb = self.F.bodies.get(cd[3]["kind"]["def"])
+            if cb is None or cb.argc != 2:
+                return None
+            caps = cd[3]["ops"]
+            outer = self
+
+            def sub_leaf(b2, kind, x):
+                if kind != "operand":
+                    return outer.leaf(b2, kind, x) if b2 is outer.b else None
+                q = op_place(x)
+                if q is None:
+                    return None
+                pr = [e for e in q["p"] if e != "*"]
+                if q["l"] == 2 and not pr:
+                    return v
+                if q["l"] == 1 and len(pr) == 1 and isinstance(pr[0], dict) and "f" in pr[0] and pr[0]["f"] < len(caps):
+                    return outer.val(caps[pr[0]["f"]], depth - 1)
+                return None
+            sub = Eval(self.F, cb, sub_leaf)
+            # the value on the path that does not bail out (`?` inside the closure adds `None` / from_residual stores to _0)
+            ds = [d for d in cb.defs.get(0, [])
+                  if not (d[2] == "rv" and d[3]["k"] == "agg" and d[3]["kind"].get("var") in ("None", "Err"))
+                  and not (d[2] == "call" and (d[3]["f"].get("fn") or "").endswith("from_residual"))]
+            if len(ds) != 1:
+                return None
+            return sub.rv(ds[0][3], depth - 1) if ds[0][2] == "rv" else sub.call(ds[0][3], depth - 1)
         if short in ("from_be_bytes", "from_le_bytes") and len(args) == 1:
             import lib
             kb = lib._const_bytes_through(self.b, args[0])
